@@ -11,7 +11,7 @@ DESCRIPTION = {
              "list, optional Origin/subprotocols/extension offers/extra headers, header order and name case shuffled) against a drawn server configuration (versions, "
              "allowedOrigins wildcards, allowNullOrigin, maxConnections with n open connections, externalPort, subprotocol chosen by onConnect, webStatus) and removes / "
              "corrupts / duplicates exactly one required element; origins are generated adjacent to each allowed pattern (suffix/prefix extension, other scheme/port, null). "
-             "(b) client: the harness answers the client's real request with the correct 101 for its key and corrupts exactly one element. (c) URLs -> request target/Host. "
+             "(b) client: the harness answers the client's real request with the correct 101 for its key and corrupts exactly one element. (c) URLs (IPv6 hosts, ports, percent-escapes in path and query) -> request target exactly as written / Host. "
              "(d) arbitrary, truncated, oversized, non-ASCII and mutated octets into both roles under several segmentations. (e) library client x library server over "
              "spec versions, subprotocol lists, origins, extension offers x accept policies.  Oracle: valid => 101 with independently computed Sec-WebSocket-Accept, "
              "subprotocol from the client's list, extensions subset of the offer, onOpen exactly once; mutated => never open, an HTTP error and/or a dropped transport; no "
@@ -530,7 +530,8 @@ def urls(col, seed, n):
     from harness import drv, wsutil
     from urllib.parse import quote
     host = st.sampled_from(["localhost", "example.com", "a.b-c.example.org", "127.0.0.1", "[::1]", "[2001:db8::1]"])
-    seg = st.text("abcXYZ019-_~.", min_size=1, max_size=6)
+    # unreserved characters and percent-escapes (space, '/', '?', '#', '%', non-ASCII): the request target must carry them exactly as written in the URL
+    seg = st.lists(st.sampled_from(list("abcXYZ019-_~.") + ["%20", "%2F", "%3F", "%23", "%25", "%C3%A4", "%e2%82%ac"]), min_size=1, max_size=6).map("".join)
     path = st.lists(seg, max_size=3).map(lambda p: "/" + "/".join(p) if p else "")
     query = st.one_of(st.just(""), st.lists(st.tuples(seg, seg), min_size=1, max_size=3).map(lambda kv: "?" + "&".join("%s=%s" % x for x in kv)))
     strat = st.tuples(st.sampled_from(["ws", "wss"]), host, st.one_of(st.none(), st.sampled_from([80, 443, 8080, 9000, 1, 65535])), path, query)
@@ -562,7 +563,7 @@ def urls(col, seed, n):
                 raise Violation("C07|url|factory-target-differs", "url %s -> host=%r port=%r secure=%r" % (url, f.host, f.port, f.isSecure), case)
         finally:
             d.close()
-        col.case(port is None or h.startswith("["), dig=url, cls=["url/" + scheme, "url/" + ("ipv6" if h.startswith("[") else "name")], sample=url)
+        col.case(port is None or h.startswith("[") or "%" in url, dig=url, cls=["url/" + scheme, "url/" + ("ipv6" if h.startswith("[") else "name")] + (["url/percent-escapes"] if "%" in url else []), sample=url)
     run_hypothesis(col, "url", strat, body, n, seed)
 
 
